@@ -233,11 +233,17 @@ theorem C16_invalid_rejected_alike (env : Env) (pid : Nat) (s : Str) :
     `cmd`, has the listening socket as descriptor 3 (inheritable), and the four
     variables `VARLINK_ADDRESS=unix:<socket path>`, `LISTEN_FDS=1`,
     `LISTEN_FDNAMES=varlink`, `LISTEN_PID=<its own pid>` — whatever the parent's
-    environment held under those names, whatever descriptor number ≥ 3 the
-    listener had in the parent, for every pid below 2^64; consequently a varlink
-    server in that process adopts descriptor 3 for the advertised address. -/
+    environment held under those names, whatever descriptor number the listener
+    had in the parent — except descriptor 1 while descriptor 2 is open, see
+    `C16_spawn_recipe_listener_at_1_counterexample` — for every pid below 2^64;
+    consequently a varlink server in that process adopts descriptor 3 for the
+    advertised address.  (A partial statement in one more respect: the descriptor
+    table handed to `runRecipe` is the caller's; that `Command::spawn` adds a
+    close-on-exec status channel of its own, which `dup2(2, 1)` can leak, is
+    `C16_spawn_status_channel_counterexample`.) -/
 theorem C16_spawn_recipe (cmd sockPath : Str) (fd pid : Nat) (parentEnv : Env) (parentFds : FdTable)
-    (listener : FdEntry) (hfd : 3 ≤ fd) (hl : fdGet fd parentFds = some listener) (hpid : pid < usizeBound) :
+    (listener : FdEntry) (hfd : fd ≠ 1 ∨ fdGet 2 parentFds = none) (hl : fdGet fd parentFds = some listener)
+    (hpid : pid < usizeBound) :
     let r := execRecipe cmd sockPath fd
     r.program = ['s', 'h'] ∧ r.args = [['-', 'c'], shLinePrefix ++ cmd] ∧
     ∃ c, runRecipe r parentEnv parentFds pid = some c ∧
@@ -271,7 +277,9 @@ theorem C16_spawn_recipe (cmd sockPath : Str) (fd pid : Nat) (parentEnv : Env) (
         exact fdGet_clearCloexec _ 3 listener hkeep
       · simp only [ne_eq, h3, not_false_eq_true, if_true, List.foldl_cons, List.foldl_nil]
         have hkeep : fdGet fd (applyFdAct parentFds (.dup2 2 1)) = some listener := by
-          rw [fdGet_dup2_other _ 2 1 fd (by omega)]; exact hl
+          rcases hfd with h1 | h2
+          · rw [fdGet_dup2_other _ 2 1 fd h1]; exact hl
+          · simp only [applyFdAct, h2]; exact hl
         rw [fdGet_close_other _ fd 3 (fun e => h3 e.symm)]
         exact fdGet_dup2_dst _ fd 3 listener hkeep h3
     · rfl
@@ -324,9 +332,33 @@ example : ∃ c, runRecipe (execRecipe ['s', 'v', 'c'] ['/', 't'] 5) exParentEnv
     envGet kListenPid c.env = some (decimal 4242) ∧ activationListener c.env c.pid = some 3 ∧
     envGet kListenPid exParentEnv = some ['1'] := by
   have h := C16_spawn_recipe ['s', 'v', 'c'] ['/', 't'] 5 4242 exParentEnv (exParentFds 5) ⟨7, true⟩
-    (by decide) (by decide) (by decide)
+    (Or.inl (by decide)) (by decide) (by decide)
   obtain ⟨_, _, c, hc, _, _, _, hp, _, _, _, _, ha, _⟩ := h
   exact ⟨c, hc, hp, ha, by decide⟩
+
+/-- **dropped hypothesis: the listener is not descriptor 1 while descriptor 2 is open** — a
+    caller whose stdout is closed gets the listener as descriptor 1; `pre_exec` starts with
+    `dup2(2, 1)`, which replaces it by stderr before it is moved: the child's descriptor 3 is
+    stderr's object (102), not the listening socket (7) -/
+theorem C16_spawn_recipe_listener_at_1_counterexample :
+    let parentFds : FdTable := [(0, ⟨100, false⟩), (2, ⟨102, false⟩), (1, ⟨7, true⟩)]
+    (runRecipe (execRecipe ['s'] ['/', 't'] 1) [] parentFds 4242).map (fun c => (fdGet 3 c.fds, fdGet 1 c.fds)) =
+      some (some ⟨102, false⟩, none) ∧
+    -- with descriptor 2 closed as well, `dup2(2, 1)` fails and the listener survives
+    (runRecipe (execRecipe ['s'] ['/', 't'] 1) [] [(0, ⟨100, false⟩), (1, ⟨7, true⟩)] 4242).map
+      (fun c => fdGet 3 c.fds) = some (some ⟨7, false⟩) := by
+  decide
+
+/-- **dropped assumption: descriptor 2 is the caller's stderr** — with 0, 1 and 2 closed the
+    listener is descriptor 0 and `Command::spawn` puts its close-on-exec status channel on 1
+    (read end, closed in the child) and 2 (write end, object 201): `dup2(2, 1)` gives the child a
+    copy of the write end that is NOT close-on-exec, so it survives the exec and `spawn` in the
+    parent does not return before the service exits -/
+theorem C16_spawn_status_channel_counterexample :
+    let atFork : FdTable := [(0, ⟨7, true⟩), (2, ⟨201, true⟩)]
+    (runRecipe (execRecipe ['s'] ['/', 't'] 0) [] atFork 4242).map (fun c => (fdGet 3 c.fds, fdGet 1 c.fds, fdGet 2 c.fds)) =
+      some (some ⟨7, false⟩, some ⟨201, false⟩, none) := by
+  decide
 
 /-- non-vacuity of `C16_spawn_recipe` and of the activation matrix: concrete
     environments, including the quirks the `addr` suite replays on the real code
